@@ -19,6 +19,11 @@ int hxs_wal_fd(struct iwkv *kv) {
   return w ? (int) w->fh : -1;
 }
 
+int hxs_wal_forcecp(struct iwkv *kv) {
+  struct iwal *w = (struct iwal*) kv->dlsnr;
+  return w ? (int) w->force_cp : 0;
+}
+
 // test-only: force the stage (used to reproduce F25 deterministically)
 void hxs_wal_set_stage(struct iwkv *kv, int st) {
   struct iwal *w = (struct iwal*) kv->dlsnr;
@@ -31,7 +36,11 @@ void hxs_wal_set_stage(struct iwkv *kv, int st) {
 void hxs_wal_obs(struct iwkv *kv, char *out, size_t outsz) {
   struct iwal *w = (struct iwal*) kv->dlsnr;
   if (!w) { snprintf(out, outsz, "nowal"); return; }
-  int locked = pthread_mutex_trylock(w->mtxp) == 0;
+  int locked = 0;
+  for (int i = 0; i < 200 && !locked; ++i) {    // up to ~0.4 s: the mutex is only held for long by a parked backup
+    locked = pthread_mutex_trylock(w->mtxp) == 0;
+    if (!locked) usleep(2000);
+  }
   off_t fsz = lseek(w->fh, 0, SEEK_END);
   uint8_t *b = malloc(fsz > 0 ? fsz : 1);
   off_t got = 0;
